@@ -28,3 +28,8 @@ Lemma go_isEmpty'_store_error : forall last,
   Some [VBool false].
 Proof. intros; glazy; reflexivity. Qed.
 
+(* every lemma is closed under the global context (bin/tr-golite fails on any "Axioms:" line) *)
+Print Assumptions go_numPending.
+Print Assumptions go_numPending_store_error.
+Print Assumptions go_isEmpty'.
+Print Assumptions go_isEmpty'_store_error.
